@@ -43,7 +43,13 @@ func genRegister(r *Rng, failing bool, marker bool) Step {
 		}
 	}
 	if marker {
-		st.E = 1
+		st.E |= 1
+	}
+	if r.Chance(1, 16) {
+		st.E |= 32 // a time or target value outside the defined constants: refused for every owner
+	}
+	if r.Chance(1, 8) {
+		st.E |= 64 // row owners: a separator row, if the table has one
 	}
 	if failing {
 		switch r.Intn(4) {
